@@ -166,7 +166,10 @@ impl C17 {
         // state right after clear vs right after construction + set_minimum_segment_size
         let pairs = std::iter::once((&a.trace[cut - 1], &b.trace[0])).chain(a.trace[cut..].iter().zip(b.trace[1..].iter()));
         for (k, (x, y)) in pairs.enumerate() {
-            let same = (k == 0 || (x.res == y.res && x.range == y.range))
+            // whether a clone / drop-arena step applies depends on how many arena values the history before
+            // the clear left alive; that is not state of the arena
+            let handle_step = matches!(ops.get(x.op), Some(Op::CloneArena) | Some(Op::DropArena { .. }));
+            let same = (k == 0 || ((handle_step || x.res == y.res) && x.range == y.range))
                 && x.snap.allocated == y.snap.allocated
                 && x.snap.discarded == y.snap.discarded
                 && x.snap.remaining == y.snap.remaining
